@@ -5,6 +5,7 @@ package disk
 import (
 	"context"
 	"fmt"
+	"sync"
 
 	"github.com/ipfs/ipfs-cluster/api"
 
@@ -29,7 +30,9 @@ var logger = logging.Logger("diskinfo")
 // Informer is a simple object to implement the ipfscluster.Informer
 // and Component interfaces.
 type Informer struct {
-	config    *Config
+	config *Config
+
+	mu        sync.Mutex
 	rpcClient *rpc.Client
 }
 
@@ -53,7 +56,9 @@ func (disk *Informer) Name() string {
 // SetClient provides us with an rpc.Client which allows
 // contacting other components in the cluster.
 func (disk *Informer) SetClient(c *rpc.Client) {
+	disk.mu.Lock()
 	disk.rpcClient = c
+	disk.mu.Unlock()
 }
 
 // Shutdown is called on cluster shutdown. We just invalidate
@@ -62,7 +67,9 @@ func (disk *Informer) Shutdown(ctx context.Context) error {
 	_, span := trace.StartSpan(ctx, "informer/disk/Shutdown")
 	defer span.End()
 
+	disk.mu.Lock()
 	disk.rpcClient = nil
+	disk.mu.Unlock()
 	return nil
 }
 
@@ -72,7 +79,11 @@ func (disk *Informer) GetMetric(ctx context.Context) *api.Metric {
 	ctx, span := trace.StartSpan(ctx, "informer/disk/GetMetric")
 	defer span.End()
 
-	if disk.rpcClient == nil {
+	disk.mu.Lock()
+	rpcClient := disk.rpcClient
+	disk.mu.Unlock()
+
+	if rpcClient == nil {
 		return &api.Metric{
 			Name:  disk.Name(),
 			Valid: false,
@@ -84,7 +95,7 @@ func (disk *Informer) GetMetric(ctx context.Context) *api.Metric {
 
 	valid := true
 
-	err := disk.rpcClient.CallContext(
+	err := rpcClient.CallContext(
 		ctx,
 		"",
 		"IPFSConnector",
